@@ -305,6 +305,98 @@ func isInteger(t types.Type) bool {
 	return ok && b.Info()&types.IsInteger != 0
 }
 
+const countedLoopOK = "counted loop: the variable moves by one toward a bound whose operands are not assigned in the body"
+
+// countedLoop recognises `for i := a; i < b [&& …]; i++ { body }` (also <=, and > / >= with i--) where
+// neither i nor an identifier of b is assigned, incremented or has its address taken in the body.
+func (w *walker) countedLoop(f *ast.ForStmt) string {
+	post, ok := f.Post.(*ast.IncDecStmt)
+	if !ok {
+		return ""
+	}
+	iv, ok := post.X.(*ast.Ident)
+	if !ok {
+		return ""
+	}
+	var bound ast.Expr
+	var find func(c ast.Expr) bool
+	find = func(c ast.Expr) bool {
+		switch x := c.(type) {
+		case *ast.ParenExpr:
+			return find(x.X)
+		case *ast.BinaryExpr:
+			if x.Op == token.LAND {
+				return find(x.X) || find(x.Y)
+			}
+			l, isIdent := x.X.(*ast.Ident)
+			if !isIdent || l.Name != iv.Name {
+				return false
+			}
+			up := x.Op == token.LSS || x.Op == token.LEQ
+			down := x.Op == token.GTR || x.Op == token.GEQ
+			if (up && post.Tok == token.INC) || (down && post.Tok == token.DEC) {
+				bound = x.Y
+				return true
+			}
+		}
+		return false
+	}
+	if !find(f.Cond) {
+		return ""
+	}
+	frozen := map[string]bool{iv.Name: true}
+	ast.Inspect(bound, func(n ast.Node) bool {
+		if id, ok := n.(*ast.Ident); ok {
+			frozen[id.Name] = true
+		}
+		return true
+	})
+	clean := true
+	ast.Inspect(f.Body, func(n ast.Node) bool {
+		root := func(e ast.Expr) string {
+			for {
+				switch x := e.(type) {
+				case *ast.Ident:
+					return x.Name
+				case *ast.ParenExpr:
+					e = x.X
+				case *ast.StarExpr:
+					e = x.X
+				default:
+					return ""
+				}
+			}
+		}
+		switch x := n.(type) {
+		case *ast.AssignStmt:
+			for _, l := range x.Lhs {
+				if frozen[root(l)] {
+					clean = false
+				}
+			}
+		case *ast.IncDecStmt:
+			if frozen[root(x.X)] {
+				clean = false
+			}
+		case *ast.UnaryExpr:
+			if x.Op == token.AND && frozen[root(x.X)] {
+				clean = false
+			}
+		case *ast.RangeStmt:
+			if x.Tok == token.ASSIGN {
+				if (x.Key != nil && frozen[root(x.Key)]) || (x.Value != nil && frozen[root(x.Value)]) {
+					clean = false
+				}
+			}
+		}
+		return true
+	})
+	if !clean {
+		return ""
+	}
+	return countedLoopOK
+}
+
 const sizeNonNeg = "size is built from len(), cap(), non-negative constants, + and * only"
 const constIdxOK = "constant index within a package-level slice literal that is never assigned"
 
@@ -474,6 +566,35 @@ func (w *walker) Visit(n ast.Node) ast.Visitor {
 	case *ast.ForStmt:
 		if e.Cond == nil {
 			*w.sites = append(*w.sites, site{Fn: w.fn, Kind: "loop", Expr: "for without condition", Guards: w.guards(n)})
+		} else {
+			hdr := "for "
+			if e.Init != nil {
+				hdr += w.text(e.Init)
+			}
+			hdr += "; " + w.text(e.Cond) + "; "
+			if e.Post != nil {
+				hdr += w.text(e.Post)
+			}
+			*w.sites = append(*w.sites, site{Fn: w.fn, Kind: "loop", Expr: hdr, Guards: w.guards(n), Contract: w.countedLoop(e)})
+		}
+	case *ast.RangeStmt:
+		t := w.typeOf(e.X)
+		if t == nil {
+			fail("cannot type the range expression %s in %s", w.text(e.X), w.fn)
+		}
+		switch u := t.Underlying().(type) {
+		case *types.Slice, *types.Array, *types.Map:
+			// finite: the range expression is evaluated once
+		case *types.Basic:
+			if u.Info()&(types.IsString|types.IsInteger) == 0 {
+				fail("range over %s in %s", t, w.fn)
+			}
+		case *types.Pointer:
+			if _, ok := u.Elem().Underlying().(*types.Array); !ok {
+				fail("range over %s in %s", t, w.fn)
+			}
+		default:
+			fail("range over %s (channel or function iterator may not terminate) in %s", t, w.fn)
 		}
 	case *ast.BranchStmt:
 		if e.Tok == token.GOTO {
